@@ -129,13 +129,17 @@ def gen_world(rng):
         st = rng.getstate()
         fam = []
         pu = rng.choice(["bar", "bar", "bar", "kPa"])
+        mixed_units = rng.random() < 0.25
         st = rng.getstate()
         for T in temps[: rng.choice([2, 3, 3])]:
             rng.setstate(st)   # same sorbent parameters at every temperature
             p, l, par = _toth(rng, T, q_st=q)
-            pf = {"bar": 1.0, "kPa": 100.0}[pu]
+            pu_i = pu
+            if mixed_units and fam:
+                pu_i = "kPa" if pu == "bar" else "bar"      # later members of the family in another unit than the first
+            pf = {"bar": 1.0, "kPa": 100.0}[pu_i]
             spec = {"kind": "point", "material": mat_a, "adsorbate": gas, "temperature": T,
-                    "units": {"pressure_mode": "absolute", "pressure_unit": pu, "loading_basis": "molar",
+                    "units": {"pressure_mode": "absolute", "pressure_unit": pu_i, "loading_basis": "molar",
                               "loading_unit": "mmol", "material_basis": "mass", "material_unit": "g", "temperature_unit": "K"},
                     "meta": {}, "pressure": [x * pf for x in p], "loading": l, "branch": "ads", "other": {}}
             if rng.random() < 0.6:
@@ -172,12 +176,16 @@ def gen_world(rng):
     # model isotherms with explicit parameters, on the same gases (IAST with models, ModelIsotherm queries)
     if rng.random() < 0.6 and ("family" in roles or "partner" in roles):
         src = isos[roles["family"][-1]] if "family" in roles else isos[roles["partner"]]
-        name = rng.choice(["Langmuir", "Langmuir", "DSLangmuir", "Henry", "Toth"])
+        name = rng.choice(["Langmuir", "Langmuir", "DSLangmuir", "Henry", "Toth", "TemkinApprox", "JensenSeaton", "TSLangmuir"])
         munit = rng.choice(["bar", "bar", "Pa"])
         ps = 1.0 if munit == "bar" else 1e-5      # affinity constants are per pressure unit
         j = rng.uniform(0.9, 1.1)                   # full-precision parameters, as a fit would produce them
         pars = {"Langmuir": {"K": 1.25 * j * ps, "n_m": 4.5 * j}, "DSLangmuir": {"K1": 2.5 * j * ps, "n_m1": 2.0, "K2": 0.25 * j * ps, "n_m2": 3.0 * j},
-                "Henry": {"K": 0.75 * j * ps}, "Toth": {"K": 1.5 * j * ps, "n_m": 5.0 * j, "t": 0.8}}[name]
+                "Henry": {"K": 0.75 * j * ps}, "Toth": {"K": 1.5 * j * ps, "n_m": 5.0 * j, "t": 0.8},
+                # models whose inverse (pressure at loading) is solved numerically
+                "TemkinApprox": {"n_m": 4.0 * j, "K": 1.5 * j * ps, "tht": -0.1},
+                "JensenSeaton": {"K": 3.0 * j * ps, "a": 4.0 * j, "b": 0.5 * ps, "c": 1.0},
+                "TSLangmuir": {"n_m1": 1.5 * j, "n_m2": 2.0, "n_m3": 1.0, "K1": 3.0 * j * ps, "K2": 0.5 * ps, "K3": 0.05 * ps}}[name]
         roles["model"] = len(isos)
         isos.append({"kind": "model", "material": src["material"], "adsorbate": src["adsorbate"], "temperature": src["temperature"],
                      "units": dict(src["units"], pressure_unit=munit), "meta": {"branch": "ads"},
